@@ -35,12 +35,15 @@ KNOWN = 'gmm-equal-count-seeding'
 R = 262144
 
 
-def make_beads(rng, balanced, container='float', force_low_pile=False, force_low_threshold=False, big=False):
+def make_beads(rng, balanced, container='float', force_low_pile=False, force_low_threshold=False, big=False, square=False):
     # container 'float': RFI stored directly ($DATATYPE=F, range 2^18); 'int': 10-bit, 4-decade log-amplified integers
     # that the real to_rfi converts (RFI range [1, 9910])
     R, floor = (262144, 8.0) if container == 'float' else (9910.0, 3.0)
     K = int(rng.integers(6, 9))
     C = int(rng.integers(1, 4))
+    if square:
+        # as many calibrated channels as bead subpopulations: the table of MEF values is square (one row per channel)
+        K = C = int(rng.integers(4, 6))
     blank = rng.random() < 0.4
     sat_hi = rng.random() < 0.2
     sat_lo = (not blank) and rng.random() < 0.15
@@ -203,7 +206,8 @@ def run(ctx):
         if low_pile or low_thr:
             container = 'float'
         bd = make_beads(rng, cid[0] == 'bal', container, force_low_pile=low_pile, force_low_threshold=low_thr,
-                        big=(cid[0] == 'bal' and cid[1] % 22 == 9) or ('mid' if (cid[0] == 'bal' and cid[1] % 11 == 3) else False))
+                        big=(cid[0] == 'bal' and cid[1] % 22 == 9) or ('mid' if (cid[0] == 'bal' and cid[1] % 11 == 3) else False),
+                        square=(cid[0] == 'bal' and cid[1] % 11 == 1))
         K, C = bd['K'], bd['C']
         names = ['FL%d' % (c + 1) for c in range(C)]
         if container == 'float':
